@@ -226,6 +226,9 @@ func (fc *fnCtx) classAssume(v *val, t types.Type, guard string) {
 		if et == nil {
 			return
 		}
+		if guard == "#skip" {
+			return
+		}
 		if w, _, isInt := intW(et); isInt && w == 8 {
 			// byte references designate objects that hold bytes
 			g.declFun("CLS", "(Int) Int")
